@@ -1,5 +1,853 @@
+/-
+Helper lemmas for C06 at tree level (`Bolt.Props.C06Tree`): copy-on-write.  The argument of
+`Bolt.Lemmas.BTreePages` one level finer: instead of page ids we track SUBTREES.  `fz t` lists
+the nodes of `t` that lie in an unmaterialised subtree (a page of the committed tree the
+transaction has not read into a `node`).  `Put`/`Delete` (`modifyAt`) only rebuild materialised
+nodes, `rebalance` only moves whole children between materialised nodes (materialising a
+sibling at most) and `spill` keeps pages verbatim while everything it writes gets page id 0:
+in each phase the frozen nodes of the result are frozen nodes of the input, and every node of
+the spilled tree with a page id ≠ 0 is frozen.
+-/
 import Bolt.Lemmas.BTreePages
 namespace Bolt.BTree.CowL
-open Bolt Bolt.BTree
+open Bolt Bolt.BTree Bolt.Node
+open Bolt.BTree.SpillL (Lt SortedIn kv spillStep)
+
+/-! ### all nodes / the frozen nodes of a tree -/
+
+mutual
+/-- every node of a tree (the tree itself included); `C06Tree.subtrees` -/
+def sub : N → List N
+  | .leaf h items => [.leaf h items]
+  | .branch h kids => .branch h kids :: subKids kids
+def subKids : List (Bytes × N) → List N
+  | [] => []
+  | (_, c) :: r => sub c ++ subKids r
+end
+
+mutual
+/-- the nodes inside an unmaterialised subtree -/
+def fz : N → List N
+  | .leaf h items => if h.mat then [] else [.leaf h items]
+  | .branch h kids => if h.mat then fzKids kids else .branch h kids :: subKids kids
+def fzKids : List (Bytes × N) → List N
+  | [] => []
+  | (_, c) :: r => fz c ++ fzKids r
+end
+
+/-- the frozen nodes strictly below a node -/
+def below : N → List N
+  | .leaf _ _ => []
+  | .branch _ kids => fzKids kids
+
+theorem sub_leaf (h : Hd) (items : List Item) : sub (.leaf h items) = [.leaf h items] := by rw [sub]
+theorem sub_branch (h : Hd) (kids : List (Bytes × N)) :
+    sub (.branch h kids) = .branch h kids :: subKids kids := by rw [sub]
+theorem subKids_nil : subKids [] = [] := by rw [subKids]
+theorem subKids_cons (s : Bytes) (c : N) (r : List (Bytes × N)) :
+    subKids ((s, c) :: r) = sub c ++ subKids r := by rw [subKids]
+
+theorem fzKids_nil : fzKids [] = [] := by rw [fzKids]
+theorem fzKids_cons (s : Bytes) (c : N) (r : List (Bytes × N)) :
+    fzKids ((s, c) :: r) = fz c ++ fzKids r := by rw [fzKids]
+
+theorem sub_self (n : N) : n ∈ sub n := by
+  cases n with
+  | leaf h items => rw [sub_leaf]; exact List.mem_cons_self ..
+  | branch h kids => rw [sub_branch]; exact List.mem_cons_self ..
+
+theorem subKids_append : ∀ (a b : List (Bytes × N)), subKids (a ++ b) = subKids a ++ subKids b
+  | [], b => by rw [subKids_nil, List.nil_append, List.nil_append]
+  | (s, c) :: r, b => by
+    rw [List.cons_append, subKids_cons, subKids_cons, subKids_append r b, List.append_assoc]
+
+theorem mem_subKids : ∀ (kids : List (Bytes × N)) (x : N), x ∈ subKids kids ↔ ∃ p ∈ kids, x ∈ sub p.2
+  | [], x => by simp [subKids_nil]
+  | (s, c) :: r, x => by
+    rw [subKids_cons, List.mem_append, mem_subKids r x]
+    simp
+
+theorem mem_fzKids : ∀ (kids : List (Bytes × N)) (x : N), x ∈ fzKids kids ↔ ∃ p ∈ kids, x ∈ fz p.2
+  | [], x => by simp [fzKids_nil]
+  | (s, c) :: r, x => by
+    rw [fzKids_cons, List.mem_append, mem_fzKids r x]
+    simp
+
+theorem fz_not_mat {n : N} (h : n.hd.mat = false) : fz n = sub n := by
+  cases n with
+  | leaf hd items => simp only [N.hd] at h; rw [fz, sub_leaf]; simp [h]
+  | branch hd kids => simp only [N.hd] at h; rw [fz, sub_branch]; simp [h]
+
+theorem fz_mat {n : N} (h : n.hd.mat = true) : fz n = below n := by
+  cases n with
+  | leaf hd items => simp only [N.hd] at h; rw [fz]; simp [h, below]
+  | branch hd kids => simp only [N.hd] at h; rw [fz]; simp [h, below]
+
+theorem below_setHd (n : N) (h : Hd) : below (n.setHd h) = below n := by
+  cases n <;> rfl
+
+mutual
+theorem fz_sub : ∀ (n : N), ∀ x ∈ fz n, x ∈ sub n
+  | .leaf h items => by
+    intro x hx
+    rw [fz] at hx
+    rw [sub_leaf]
+    split at hx
+    · cases hx
+    · exact hx
+  | .branch h kids => by
+    intro x hx
+    rw [fz] at hx
+    rw [sub_branch]
+    split at hx
+    · exact List.mem_cons_of_mem _ (fzKids_sub kids x hx)
+    · exact hx
+theorem fzKids_sub : ∀ (kids : List (Bytes × N)), ∀ x ∈ fzKids kids, x ∈ subKids kids
+  | [] => by intro x hx; rw [fzKids_nil] at hx; cases hx
+  | (s, c) :: r => by
+    intro x hx
+    rw [fzKids_cons] at hx
+    rw [subKids_cons]
+    rcases List.mem_append.mp hx with hx | hx
+    · exact List.mem_append_left _ (fz_sub c x hx)
+    · exact List.mem_append_right _ (fzKids_sub r x hx)
+end
+
+theorem below_fz (n : N) : ∀ x ∈ below n, x ∈ fz n := by
+  intro x hx
+  by_cases hm : n.hd.mat = true
+  · rw [fz_mat hm]; exact hx
+  · have hm' : n.hd.mat = false := by simpa using hm
+    rw [fz_not_mat hm']
+    cases n with
+    | leaf h items => cases hx
+    | branch h kids =>
+      rw [sub_branch]
+      exact List.mem_cons_of_mem _ (fzKids_sub kids x hx)
+
+theorem setHd_hd (n : N) (h : Hd) : (n.setHd h).hd = h := by cases n <;> rfl
+
+/-- a node given a materialised header: only what was frozen below it stays frozen -/
+theorem fz_setHd {n : N} {h : Hd} (hm : h.mat = true) : fz (n.setHd h) = below n := by
+  rw [fz_mat (by rw [setHd_hd]; exact hm), below_setHd]
+
+theorem fz_materialize (n : N) : fz (materialize n) = below n := by
+  rw [RebL.materialize_eq, fz_setHd (RebL.mhd_mat n)]
+
+theorem materialize_mat (n : N) : (materialize n).hd.mat = true := by
+  rw [RebL.materialize_eq, setHd_hd]; exact RebL.mhd_mat n
+
+theorem fz_clr {n : N} (hm : n.hd.mat = true) : fz (RebL.clr n) = below n := by
+  unfold RebL.clr
+  rw [fz_setHd (by exact hm)]
+
+theorem clr_mat {n : N} (hm : n.hd.mat = true) : (RebL.clr n).hd.mat = true := by
+  unfold RebL.clr; rw [setHd_hd]; exact hm
+
+/-! ### `Put` / `Delete`: only the materialised path is rebuilt -/
+
+theorem mem_set {α} : ∀ (l : List α) (i : Nat) (a x : α), x ∈ l.set i a → x ∈ l ∨ x = a
+  | [], _, _, _, h => by simp at h
+  | b :: l, 0, a, x, h => by
+    rw [List.set_cons_zero] at h
+    rcases List.mem_cons.mp h with h | h
+    · exact Or.inr h
+    · exact Or.inl (List.mem_cons_of_mem _ h)
+  | b :: l, i+1, a, x, h => by
+    rw [List.set_cons_succ] at h
+    rcases List.mem_cons.mp h with h | h
+    · exact Or.inl (h ▸ List.mem_cons_self ..)
+    · rcases mem_set l i a x h with h | h
+      · exact Or.inl (List.mem_cons_of_mem _ h)
+      · exact Or.inr h
+
+theorem fzKids_set (kids : List (Bytes × N)) (i : Nat) (s : Bytes) (c c' : N)
+    (hg : kids[i]? = some (s, c)) (hc : ∀ x ∈ fz c', x ∈ fz c) :
+    ∀ x ∈ fzKids (kids.set i (s, c')), x ∈ fzKids kids := by
+  intro x hx
+  obtain ⟨p, hp, hxp⟩ := (mem_fzKids _ x).mp hx
+  rcases mem_set kids i (s, c') p hp with hp | rfl
+  · exact (mem_fzKids _ x).mpr ⟨p, hp, hxp⟩
+  · exact (mem_fzKids _ x).mpr ⟨(s, c), List.mem_of_getElem? hg, hc x hxp⟩
+
+theorem modifyAt_fz (f : N → Option N)
+    (hf : ∀ n n', n.hd.mat = true → f n = some n' → ∀ x ∈ fz n', x ∈ fz n) :
+    ∀ (path : List Nat) (n n' : N), modifyAt f path n = some n' → ∀ x ∈ fz n', x ∈ fz n
+  | [], n, n', h => by
+    rw [OpsL.modifyAt_nil] at h
+    intro x hx
+    have := hf _ _ (materialize_mat n) h x hx
+    rw [fz_materialize] at this
+    exact below_fz n x this
+  | i :: rest, .leaf hd items, n', h => by
+    rw [modifyAt, OpsL.materialize_leaf] at h; cases h
+  | i :: rest, .branch hd kids, n', h => by
+    cases hg : kids[i]? with
+    | none =>
+      rw [modifyAt, OpsL.materialize_branch] at h; simp only [hg] at h; cases h
+    | some p =>
+      obtain ⟨s, c⟩ := p
+      rw [OpsL.modifyAt_branch f i rest hd kids s c hg] at h
+      obtain ⟨c', hc', rfl⟩ := Option.map_eq_some_iff.mp h
+      have ih := modifyAt_fz f hf rest c c' hc'
+      intro x hx
+      rw [fz_mat (by exact OpsL.mhd_mat _ _)] at hx
+      exact below_fz (.branch hd kids) x (fzKids_set kids i s c c' hg ih x hx)
+
+theorem leafPut_fz (k v : Bytes) : ∀ n n', n.hd.mat = true → leafPut k v n = some n' →
+    ∀ x ∈ fz n', x ∈ fz n
+  | .leaf h items, n', hm, e => by
+    rw [OpsL.leafPut_eq] at e; cases e
+    intro x hx
+    rw [fz_mat (by exact hm)] at hx
+    cases hx
+  | .branch _ _, n', _, e => by simp [leafPut] at e
+
+theorem leafDel_fz (k : Bytes) : ∀ n n', n.hd.mat = true → leafDel k n = some n' →
+    ∀ x ∈ fz n', x ∈ fz n
+  | .leaf h items, n', hm, e => by
+    simp only [N.hd] at hm
+    unfold leafDel at e
+    simp only at e
+    intro x hx
+    split at e <;> cases e
+    · rw [fz_mat (by exact hm)] at hx; cases hx
+    · exact hx
+  | .branch _ _, n', _, e => by simp [leafDel] at e
+
+theorem putT_fz (fuel : Nat) (t t' : N) (k v : Bytes) (h : putT fuel t k v = some t') :
+    ∀ x ∈ fz t', x ∈ fz t := by
+  unfold putT at h
+  split at h
+  · split at h
+    · cases h; exact fun _ h => h
+    · exact modifyAt_fz _ (leafPut_fz k v) _ _ _ h
+  · exact modifyAt_fz _ (leafPut_fz k v) _ _ _ h
+
+theorem delT_fz (fuel : Nat) (t t' : N) (k : Bytes) (h : delT fuel t k = some t') :
+    ∀ x ∈ fz t', x ∈ fz t := by
+  unfold delT at h
+  split at h
+  · split at h
+    · exact modifyAt_fz _ (leafDel_fz k) _ _ _ h
+    · cases h; exact fun _ h => h
+  · cases h; exact fun _ h => h
+
+theorem applyOps_fz (fuel : Nat) : ∀ (ops : List Op) (t t1 : N), applyOps fuel t ops = some t1 →
+    ∀ x ∈ fz t1, x ∈ fz t
+  | [], t, t1, h => by rw [applyOps] at h; cases h; exact fun _ h => h
+  | o :: os, t, t1, h => by
+    rw [applyOps] at h
+    obtain ⟨t', e1, e2⟩ := Option.bind_eq_some_iff.mp h
+    intro x hx
+    have hx' := applyOps_fz fuel os t' t1 e2 x hx
+    cases o with
+    | put k v => exact putT_fz fuel t t' k v e1 x hx'
+    | del k => exact delT_fz fuel t t' k e1 x hx'
+
+/-! ### rebalance: whole children move between materialised nodes -/
+
+/-- every node on the path is materialised -/
+def MatPath : List Nat → N → Prop
+  | [], n => n.hd.mat = true
+  | _ :: _, .leaf _ _ => False
+  | i :: rest, .branch h kids => h.mat = true ∧ ∀ p, kids[i]? = some p → MatPath rest p.2
+
+theorem findMat_matPath {pg : Nat} : ∀ {fuel : Nat} {t : N} {path : List Nat},
+    findMat pg fuel t = some path → MatPath path t
+  | 0, t, path, h => by simp [findMat] at h
+  | fuel+1, t, path, h => by
+    unfold findMat at h
+    by_cases h1 : t.hd.mat = true ∧ t.hd.pgid = pg
+    · rw [if_pos h1] at h
+      cases h
+      exact h1.1
+    · rw [if_neg h1] at h
+      by_cases h2 : (!t.hd.mat) = true
+      · rw [if_pos h2] at h; cases h
+      · rw [if_neg h2] at h
+        cases t with
+        | leaf hd items => cases h
+        | branch hd kids =>
+          simp only at h
+          obtain ⟨i, _, hf⟩ := RebL.findSome?_range_some h
+          cases hk : kids[i]? with
+          | none => rw [hk] at hf; cases hf
+          | some sc =>
+            obtain ⟨s, c⟩ := sc
+            rw [hk] at hf
+            simp only [Option.map_eq_some_iff] at hf
+            obtain ⟨rest, hr, rfl⟩ := hf
+            refine ⟨by simpa [N.hd] using h2, ?_⟩
+            intro p hp
+            rw [hk] at hp
+            cases hp
+            exact findMat_matPath hr
+
+theorem appendInodes_fz {l r m : N} (h : appendInodes l r = some m) (hm : l.hd.mat = true) :
+    m.hd.mat = true ∧ ∀ x ∈ fz m, x ∈ below l ∨ x ∈ below r := by
+  cases l with
+  | leaf hl a =>
+    cases r with
+    | leaf hr b =>
+      simp [appendInodes] at h; subst h
+      refine ⟨hm, ?_⟩
+      intro x hx
+      rw [fz_mat (by exact hm)] at hx
+      cases hx
+    | branch hr b => simp [appendInodes] at h
+  | branch hl a =>
+    cases r with
+    | leaf hr b => simp [appendInodes] at h
+    | branch hr b =>
+      simp [appendInodes] at h; subst h
+      refine ⟨hm, ?_⟩
+      intro x hx
+      rw [fz_mat (by exact hm)] at hx
+      obtain ⟨p, hp, hxp⟩ := (mem_fzKids _ x).mp hx
+      rcases List.mem_append.mp hp with hp | hp
+      · exact Or.inl ((mem_fzKids _ x).mpr ⟨p, hp, hxp⟩)
+      · exact Or.inr ((mem_fzKids _ x).mpr ⟨p, hp, hxp⟩)
+
+/-- frozen nodes of a materialised branch whose children all come (frozen-wise) from `kids` -/
+theorem branch_sub {h h' : Hd} {kids kids' : List (Bytes × N)} (hm : h.mat = true) (hm' : h'.mat = true)
+    (hk : ∀ p ∈ kids', ∀ x ∈ fz p.2, x ∈ fzKids kids) :
+    (N.branch h' kids').hd.mat = true ∧ ∀ x ∈ fz (.branch h' kids'), x ∈ fz (.branch h kids) := by
+  refine ⟨hm', ?_⟩
+  intro x hx
+  rw [fz_mat (by exact hm')] at hx
+  rw [fz_mat (by exact hm)]
+  obtain ⟨p, hp, hxp⟩ := (mem_fzKids _ x).mp hx
+  exact hk p hp x hxp
+
+theorem childS_fz {th : Nat} {h : Hd} {pre post : List (Bytes × N)} {s : Bytes} {n0 P' : N} {call : Bool}
+    (hm : h.mat = true) (hn : n0.hd.mat = true)
+    (hc : RebL.childS th h pre s n0 post = some (P', call)) :
+    P'.hd.mat = true ∧ ∀ x ∈ fz P', x ∈ fz (.branch h (pre ++ (s, n0) :: post)) := by
+  have hself : ∀ p ∈ pre ++ (s, n0) :: post, ∀ x ∈ fz p.2, x ∈ fzKids (pre ++ (s, n0) :: post) :=
+    fun p hp x hx => (mem_fzKids _ x).mpr ⟨p, hp, hx⟩
+  have hn0 : ∀ x ∈ below n0, x ∈ fzKids (pre ++ (s, n0) :: post) := fun x hx =>
+    (mem_fzKids _ x).mpr ⟨(s, n0), by simp, below_fz n0 x hx⟩
+  rcases RebL.childS_inv hc with ⟨_, rfl, _⟩ | ⟨rfl, _⟩ | ⟨rfl, _⟩ | ⟨sr, r0, post', m, rfl, rfl, hap, rfl, _⟩ |
+    ⟨pre', sl, l0, m, rfl, hap, rfl, _⟩
+  · exact branch_sub hm hm hself
+  · refine branch_sub hm hm ?_
+    intro p hp x hx
+    rcases List.mem_append.mp hp with hp | hp
+    · exact hself p (List.mem_append_left _ hp) x hx
+    · rcases List.mem_cons.mp hp with rfl | hp
+      · rw [fz_clr hn] at hx; exact hn0 x hx
+      · exact hself p (List.mem_append_right _ (List.mem_cons_of_mem _ hp)) x hx
+  · refine branch_sub hm (by exact hm) ?_
+    intro p hp x hx
+    rcases List.mem_append.mp hp with hp | hp
+    · exact hself p (List.mem_append_left _ hp) x hx
+    · exact hself p (List.mem_append_right _ (List.mem_cons_of_mem _ hp)) x hx
+  · refine branch_sub hm (by exact hm) ?_
+    obtain ⟨_, hfm⟩ := appendInodes_fz hap (clr_mat hn)
+    intro p hp x hx
+    rcases List.mem_cons.mp hp with rfl | hp
+    · rcases hfm x hx with hx | hx
+      · rw [RebL.clr, below_setHd] at hx; exact hn0 x hx
+      · rw [RebL.materialize_eq, below_setHd] at hx
+        exact (mem_fzKids _ x).mpr ⟨(sr, r0), by simp, below_fz r0 x hx⟩
+    · exact hself p (by simp [hp]) x hx
+  · refine branch_sub hm (by exact hm) ?_
+    obtain ⟨_, hfm⟩ := appendInodes_fz hap (materialize_mat l0)
+    intro p hp x hx
+    rcases List.mem_append.mp hp with hp | hp
+    · exact hself p (by simp [hp]) x hx
+    · rcases List.mem_cons.mp hp with rfl | hp
+      · rcases hfm x hx with hx | hx
+        · rw [RebL.materialize_eq, below_setHd] at hx
+          exact (mem_fzKids _ x).mpr ⟨(sl, l0), by simp, below_fz l0 x hx⟩
+        · rw [RebL.clr, below_setHd] at hx; exact hn0 x hx
+      · exact hself p (by simp [hp]) x hx
+
+theorem rebalGo_fz (th : Nat) : ∀ (path : List Nat) (n n' : N) (call : Bool),
+    MatPath path n → rebalGo th path n = some (n', call) →
+    n'.hd.mat = true ∧ ∀ x ∈ fz n', x ∈ fz n
+  | [], n, n', call, hmp, hgo => by
+    simp only [rebalGo, Option.some.injEq, Prod.mk.injEq] at hgo
+    obtain ⟨rfl, rfl⟩ := hgo
+    exact ⟨hmp, fun _ h => h⟩
+  | p :: rest, .leaf hd items, n', call, hmp, _ => by exact hmp.elim
+  | p :: rest, .branch hd kids, n', call, hmp, hgo => by
+    obtain ⟨hm, hmp'⟩ := hmp
+    rw [rebalGo] at hgo
+    cases hk : kids[p]? with
+    | none => simp only [hk] at hgo; cases hgo
+    | some sc =>
+      obtain ⟨s, c⟩ := sc
+      simp only [hk] at hgo
+      obtain ⟨pre, post, rfl, rfl⟩ := RebL.getElem?_split hk
+      cases hr : rebalGo th rest c with
+      | none => rw [hr] at hgo; simp at hgo
+      | some res =>
+        obtain ⟨c', call0⟩ := res
+        rw [hr] at hgo
+        simp only [RebL.set_mid] at hgo
+        obtain ⟨hcm, hcf⟩ := rebalGo_fz th rest c c' call0 (hmp' _ hk) hr
+        have hstep : ∀ x ∈ fz (.branch hd (pre ++ (s, c') :: post)), x ∈ fz (.branch hd (pre ++ (s, c) :: post)) := by
+          refine (branch_sub hm hm ?_).2
+          intro q hq x hx
+          rcases List.mem_append.mp hq with hq | hq
+          · exact (mem_fzKids _ x).mpr ⟨q, List.mem_append_left _ hq, hx⟩
+          · rcases List.mem_cons.mp hq with rfl | hq
+            · exact (mem_fzKids _ x).mpr ⟨(s, c), by simp, hcf x hx⟩
+            · exact (mem_fzKids _ x).mpr ⟨q, List.mem_append_right _ (List.mem_cons_of_mem _ hq), hx⟩
+        cases call0 with
+        | true =>
+          simp only [if_true] at hgo
+          rw [RebL.rebalChild_eq] at hgo
+          obtain ⟨h1, h2⟩ := childS_fz hm hcm hgo
+          exact ⟨h1, fun x hx => hstep x (h2 x hx)⟩
+        | false =>
+          simp only [Bool.false_eq_true, if_false, Option.some.injEq, Prod.mk.injEq] at hgo
+          obtain ⟨rfl, rfl⟩ := hgo
+          exact ⟨hm, hstep⟩
+
+theorem matPath_root : ∀ {path : List Nat} {n : N}, MatPath path n → n.hd.mat = true
+  | [], _, h => h
+  | _ :: _, .leaf _ _, h => h.elim
+  | _ :: _, .branch _ _, h => h.1
+
+theorem rebalRoot_fz {th : Nat} {r t' : N} (hm : r.hd.mat = true) (h : rebalRoot th r = some t') :
+    ∀ x ∈ fz t', x ∈ fz r := by
+  unfold rebalRoot at h
+  by_cases hu : r.hd.unb = false
+  · simp only [hu, Bool.not_false, if_true, Option.some.injEq] at h
+    subst h
+    exact fun _ h => h
+  · have hu' : r.hd.unb = true := by simpa using hu
+    simp only [hu', Bool.not_true, Bool.false_eq_true, if_false] at h
+    have hclr : ∀ x ∈ fz (RebL.clr r), x ∈ fz r := by
+      intro x hx; rw [fz_clr hm] at hx; exact below_fz r x hx
+    split at h
+    · simp only [Option.some.injEq] at h; subst h; exact hclr
+    · split at h
+      · rename_i hd0 s c heq
+        have hr : ∃ hd, r = .branch hd [(s, c)] ∧ hd0 = { hd with unb := false } := by
+          cases r with
+          | leaf hd items => simp [N.setHd] at heq
+          | branch hd kids =>
+            simp only [N.setHd, N.branch.injEq] at heq
+            exact ⟨hd, by rw [heq.2], heq.1.symm⟩
+        obtain ⟨hd, rfl, rfl⟩ := hr
+        have ht : t' = (materialize c).setHd { hd with unb := false } := by
+          cases hmc : materialize c <;> rw [hmc] at h <;> simp at h <;> exact h.symm
+        subst ht
+        intro x hx
+        rw [fz_setHd (by exact hm), RebL.materialize_eq, below_setHd] at hx
+        rw [fz_mat hm]
+        exact (mem_fzKids _ x).mpr ⟨(s, c), by simp, below_fz c x hx⟩
+      · simp only [Option.some.injEq] at h; subst h; exact hclr
+
+theorem rebalanceAt_fz {th : Nat} {t t' : N} {path : List Nat} (hmp : MatPath path t)
+    (h : rebalanceAt th t path = some t') : ∀ x ∈ fz t', x ∈ fz t := by
+  unfold rebalanceAt at h
+  cases hr : rebalGo th path t with
+  | none => rw [hr] at h; simp at h
+  | some res =>
+    obtain ⟨r, call⟩ := res
+    rw [hr] at h
+    obtain ⟨h1, h2⟩ := rebalGo_fz th path t r call hmp hr
+    cases call with
+    | false =>
+      simp only [Bool.false_eq_true, if_false, Option.some.injEq] at h
+      subst h
+      exact h2
+    | true =>
+      simp only [if_true] at h
+      exact fun x hx => h2 x (rebalRoot_fz h1 h x hx)
+
+theorem rebalanceAll_fz (th fuel : Nat) : ∀ (order : List Nat) (t t' : N),
+    rebalanceAll th fuel t order = some t' → ∀ x ∈ fz t', x ∈ fz t
+  | [], t, t', h => by
+    simp only [rebalanceAll, Option.some.injEq] at h
+    subst h
+    exact fun _ h => h
+  | pg :: rest, t, t', h => by
+    rw [rebalanceAll] at h
+    cases hfm : findMat pg fuel t with
+    | none =>
+      rw [hfm] at h
+      exact rebalanceAll_fz th fuel rest t t' h
+    | some path =>
+      rw [hfm] at h
+      simp only at h
+      cases h1 : rebalanceAt th t path with
+      | none => rw [h1] at h; cases h
+      | some t1 =>
+        rw [h1] at h
+        simp only at h
+        exact fun x hx => rebalanceAt_fz (findMat_matPath hfm) h1 x
+          (rebalanceAll_fz th fuel rest t1 t' h x hx)
+
+/-! ### spill: pages stay verbatim, everything written has page id 0 -/
+
+/-- every node of `l` that is an old page (page id ≠ 0) is one of `F` -/
+def Kin (l F : List N) : Prop := ∀ x ∈ l, x.hd.pgid ≠ 0 → x ∈ F
+
+theorem Kin_nil (F : List N) : Kin [] F := by intro x hx; cases hx
+
+theorem Kin_append {a b F : List N} (ha : Kin a F) (hb : Kin b F) : Kin (a ++ b) F := by
+  intro x hx h0
+  rcases List.mem_append.mp hx with hx | hx
+  · exact ha x hx h0
+  · exact hb x hx h0
+
+theorem Kin.mono {l F F' : List N} (h : Kin l F) (hF : ∀ x ∈ F, x ∈ F') : Kin l F' :=
+  fun x hx h0 => hF x (h x hx h0)
+
+theorem Kin_refl (l : List N) : Kin l l := fun _ hx _ => hx
+
+/-- all nodes of a list of trees -/
+def subL (pcs : List N) : List N := (pcs.map sub).flatten
+
+theorem subL_nil : subL [] = [] := rfl
+
+theorem subL_cons (q : N) (r : List N) : subL (q :: r) = sub q ++ subL r := by
+  unfold subL; rw [List.map_cons, List.flatten_cons]
+
+theorem subL_single (q : N) : subL [q] = sub q := by
+  rw [subL_cons, subL_nil, List.append_nil]
+
+theorem subKids_kv : ∀ pcs : List N, subKids (pcs.map kv) = subL pcs
+  | [] => by rw [List.map_nil, subKids_nil, subL_nil]
+  | q :: r => by
+    rw [List.map_cons, subL_cons, ← subKids_kv r]
+    unfold kv
+    rw [subKids_cons]
+
+theorem Kin_split_leaf (F : List N) : ∀ segs : List (List Item), Kin (subL (segs.map (N.leaf written))) F
+  | [] => Kin_nil F
+  | s :: r => by
+    rw [List.map_cons, subL_cons, sub_leaf]
+    refine Kin_append ?_ (Kin_split_leaf F r)
+    intro x hx h0
+    rw [List.mem_singleton] at hx
+    subst hx
+    exact absurd rfl h0
+
+theorem Kin_split_branch (F : List N) : ∀ segs : List (List (Bytes × N)),
+    Kin (subKids segs.flatten) F → Kin (subL (segs.map (N.branch written))) F
+  | [], _ => Kin_nil F
+  | s :: r, h => by
+    rw [List.flatten_cons, subKids_append] at h
+    rw [List.map_cons, subL_cons, sub_branch]
+    have h1 : Kin (subKids s) F := fun x hx => h x (List.mem_append_left _ hx)
+    have h2 : Kin (subKids r.flatten) F := fun x hx => h x (List.mem_append_right _ hx)
+    refine Kin_append ?_ (Kin_split_branch F r h2)
+    intro x hx h0
+    rcases List.mem_cons.mp hx with rfl | hx
+    · exact absurd rfl h0
+    · exact h1 x hx h0
+
+/-- what the induction hypothesis says about a child -/
+def ChildQ (ps sth fuel : Nat) (pmat : Bool) (c : N) : Prop :=
+  ∀ lo hi pcs, inTxN false pmat lo hi c = true → c.count ≠ 0 → spillN ps sth fuel c = some pcs →
+    Kin (subL pcs) (fz c)
+
+/-- the fold over the children of a spilled branch (`PagesL.fold_pg` with subtrees for page ids) -/
+theorem fold_cow (ps sth fuel : Nat) (pmat : Bool) (hi : Option Bytes) (d : Nat) :
+    ∀ (post A : List (Bytes × N)) (lo : Option Bytes) (R : List (Bytes × N)),
+    (∀ p ∈ post, ChildQ ps sth fuel pmat p.2) →
+    inTxKids pmat lo hi post d = true →
+    SortedIn lo hi (post.map (·.1)) →
+    (∀ p ∈ post, p.1 ≠ []) →
+    (∀ a ∈ A, ∀ p ∈ post, Bytes.lt a.1 p.1 = true) →
+    (A ≠ [] → lo = post.head?.map (·.1)) →
+    post.foldl (spillStep ps sth fuel) (some (A ++ post)) = some R →
+    ∃ X, R = A ++ X ∧ post.length ≤ X.length ∧
+      SortedIn lo hi (X.map (·.1)) ∧ Kin (subKids X) (fzKids post) := by
+  intro post
+  induction post with
+  | nil =>
+    intro A lo R _ _ _ _ _ _ hfold
+    simp only [List.foldl_nil, Option.some.injEq] at hfold
+    exact ⟨[], hfold.symm, Nat.le_refl _, SpillL.SortedIn_nil _ _, by rw [subKids_nil]; exact Kin_nil _⟩
+  | cons p r ihr =>
+    intro A lo R hch hk hs hne hAp hAlo hfold
+    obtain ⟨s, c⟩ := p
+    rw [inTxKids] at hk
+    simp only [Bool.and_eq_true, beq_iff_eq] at hk
+    obtain ⟨⟨⟨hsc, hdc⟩, hinc⟩, hkr⟩ := hk
+    have hAs : ∀ a ∈ A, Bytes.lt a.1 s = true := fun a ha => hAp a ha (s, c) (List.mem_cons_self ..)
+    have hsb := hs.2 s (by simp)
+    -- the upper bound of the child is below every later separator
+    have hhic : ∀ k, ltHi ((r.head?.map (·.1)).orElse (fun _ => hi)) k = true →
+        ∀ b ∈ r, Bytes.lt k b.1 = true := by
+      intro k hk b hb
+      cases r with
+      | nil => cases hb
+      | cons p' r' =>
+        obtain ⟨s', c'⟩ := p'
+        have hk' : Bytes.lt k s' = true := by simpa [ltHi] using hk
+        rcases List.mem_cons.mp hb with rfl | hb
+        · exact hk'
+        · have h2 := (List.pairwise_cons.mp (List.pairwise_cons.mp hs.1).2).1 b.1
+            (List.mem_map.mpr ⟨b, hb, rfl⟩)
+          exact Bytes.lt_trans hk' h2
+    have hshic : ltHi ((r.head?.map (·.1)).orElse (fun _ => hi)) s = true := by
+      cases r with
+      | nil => simpa using hsb.2
+      | cons p' r' =>
+        obtain ⟨s', c'⟩ := p'
+        have := (List.pairwise_cons.mp hs.1).1 s' (by simp)
+        simpa [ltHi] using this
+    -- one step of the fold
+    have hstep : ∀ S, spillStep ps sth fuel (some (A ++ (s, c) :: r)) (s, c) = some S →
+        ∃ Xc, S = A ++ Xc ++ r ∧ 1 ≤ Xc.length ∧
+        SortedIn lo ((r.head?.map (·.1)).orElse (fun _ => hi)) (Xc.map (·.1)) ∧
+        Kin (subKids Xc) (fz c) := by
+      intro S hS
+      by_cases hm : c.hd.mat = true
+      · -- materialised child: spilled, its pieces re-inserted by key
+        rw [if_pos hm] at hsc
+        simp only [spillStep, hm, Bool.not_true, Bool.false_eq_true, if_false] at hS
+        cases hsp : spillN ps sth fuel c with
+        | none => rw [hsp] at hS; cases hS
+        | some pieces =>
+          rw [hsp] at hS
+          simp only at hS
+          have hcnt := PagesL.putPieces_count _ _ _ _ hS
+          have hc0 : c.count ≠ 0 := by
+            intro h0
+            obtain ⟨q, hq, hq0⟩ := PagesL.spill_count0 ps sth fuel _ _ _ c pieces hm hinc h0 hsp
+            exact hcnt q hq hq0
+          obtain ⟨hpne, hkeys, _⟩ := PagesL.spillN_pg ps sth c fuel _ _ _ pieces hinc hc0 hsp
+          have hsub := hch (s, c) (List.mem_cons_self ..) _ _ pieces hinc hc0 hsp
+          have hput := SpillL.putPieces_child A r s c pieces (hne (s, c) (List.mem_cons_self ..)) hpne
+            hcnt hkeys.1 hAs
+            (by
+              intro a ha q hq
+              have hlo := hAlo (List.ne_nil_of_mem ha)
+              simp only [List.head?_cons, Option.map_some] at hlo
+              have hge := (hkeys.2 q.firstKey (List.mem_map.mpr ⟨q, hq, rfl⟩)).1
+              rw [hlo] at hge
+              exact SpillL.lt_of_lt_of_le (hAs a ha) (by simpa [geLo] using hge))
+            (by
+              intro q hq b hb
+              exact hhic _ (hkeys.2 q.firstKey (List.mem_map.mpr ⟨q, hq, rfl⟩)).2 b hb)
+          rw [← hsc, hput] at hS
+          simp only [Option.some.injEq] at hS
+          refine ⟨pieces.map kv, hS.symm, ?_, ?_, ?_⟩
+          · rw [List.length_map]
+            cases pieces with
+            | nil => exact absurd rfl hpne
+            | cons a b => simp
+          · rw [List.map_map]
+            exact hkeys
+          · rw [subKids_kv]; exact hsub
+      · -- a page stays as it is
+        have hm' : c.hd.mat = false := by simpa using hm
+        simp only [spillStep, hm', Bool.not_false, if_true, Option.some.injEq] at hS
+        refine ⟨[(s, c)], ?_, Nat.le_refl _, ?_, ?_⟩
+        · rw [← hS]; simp
+        · exact ⟨by simp, by
+            intro k hk
+            simp only [List.map_cons, List.map_nil, List.mem_singleton] at hk; subst hk
+            exact ⟨hsb.1, hshic⟩⟩
+        · rw [subKids_cons, subKids_nil, List.append_nil, fz_not_mat hm']
+          exact Kin_refl _
+    rw [List.foldl_cons] at hfold
+    cases hS : spillStep ps sth fuel (some (A ++ (s, c) :: r)) (s, c) with
+    | none => rw [hS, PagesL.foldl_step_none] at hfold; cases hfold
+    | some S =>
+      rw [hS] at hfold
+      obtain ⟨Xc, rfl, hl1, hso, hpg⟩ := hstep S hS
+      rw [fzKids_cons]
+      cases r with
+      | nil =>
+        simp only [List.foldl_nil, Option.some.injEq] at hfold
+        refine ⟨Xc, by rw [← hfold, List.append_nil], by simpa using hl1, by simpa using hso, ?_⟩
+        exact hpg.mono (fun x hx => List.mem_append_left _ hx)
+      | cons p' r' =>
+        obtain ⟨s', c'⟩ := p'
+        have hs'b := hs.2 s' (by simp)
+        obtain ⟨X', hR, hl1', hso', hpg'⟩ := ihr (A ++ Xc) (some s') R
+          (fun p hp => hch p (List.mem_cons_of_mem _ hp)) hkr (SpillL.seps_tail hs)
+          (fun p hp => hne p (List.mem_cons_of_mem _ hp))
+          (fun a ha p hp => by
+            rcases List.mem_append.mp ha with ha | ha
+            · exact hAp a ha p (List.mem_cons_of_mem _ hp)
+            · exact hhic a.1 (hso.2 a.1 (List.mem_map.mpr ⟨a, ha, rfl⟩)).2 p hp)
+          (fun _ => rfl) hfold
+        refine ⟨Xc ++ X', ?_, ?_, ?_, ?_⟩
+        · rw [hR, List.append_assoc]
+        · simp only [List.length_cons, List.length_append] at hl1' ⊢; omega
+        · rw [List.map_append]
+          exact SpillL.SortedIn_append (by simpa using hso) hso' hs'b.1 hs'b.2
+        · rw [subKids_append]
+          exact Kin_append (hpg.mono (fun x hx => List.mem_append_left _ hx))
+            (hpg'.mono (fun x hx => List.mem_append_right _ hx))
+
+theorem spillN_cow (ps sth : Nat) : ∀ (n : N) (fuel : Nat) (pmat : Bool) (lo hi : Option Bytes) (pcs : List N),
+    inTxN false pmat lo hi n = true → n.count ≠ 0 → spillN ps sth fuel n = some pcs →
+    Kin (subL pcs) (fz n) := by
+  refine SpillL.N_ind ?_ ?_
+  · intro hd items fuel pmat lo hi pcs h hc hsp
+    cases fuel with
+    | zero => rw [PagesL.spillN_zero] at hsp; cases hsp
+    | succ f =>
+      rw [spillN] at hsp
+      by_cases hm : hd.mat = true
+      · simp only [N.hd, hm, Bool.not_true, Bool.false_eq_true, if_false, Option.some.injEq] at hsp
+        subst hsp
+        obtain ⟨segs, heq, _⟩ := SpillL.splitNode_leaf_spec ps sth hd items
+        rw [heq]
+        exact Kin_split_leaf _ segs
+      · have hm' : hd.mat = false := by simpa using hm
+        simp only [N.hd, hm', Bool.not_false, if_true, Option.some.injEq] at hsp
+        subst hsp
+        rw [subL_single, fz_not_mat (by exact hm')]
+        exact Kin_refl _
+  · intro hd kids ih fuel pmat lo hi pcs h hc hsp
+    cases fuel with
+    | zero => rw [PagesL.spillN_zero] at hsp; cases hsp
+    | succ f =>
+      rw [inTxN] at h
+      simp only [Bool.and_eq_true, List.all_eq_true, decide_eq_true_eq] at h
+      obtain ⟨⟨⟨⟨_, h2⟩, hsk⟩, hall⟩, hk⟩ := h
+      have hs : SortedIn lo hi (kids.map (·.1)) := by
+        refine ⟨(SpillL.sortedKeys_iff _).mp hsk, ?_⟩
+        intro k hk
+        obtain ⟨x, hx, rfl⟩ := List.mem_map.mp hk
+        exact ⟨(hall x hx).1.2, (hall x hx).2⟩
+      generalize hdd : ((kids.head?.map (fun p => depth p.2)).getD 0) = d at hk
+      rw [SpillL.spillN_branch] at hsp
+      by_cases hm : hd.mat = true
+      · simp only [hm, Bool.not_true, Bool.false_eq_true, if_false] at hsp
+        cases hfold : kids.foldl (spillStep ps sth f) (some kids) with
+        | none => rw [hfold] at hsp; cases hsp
+        | some kids' =>
+          rw [hfold] at hsp
+          simp only [Option.some.injEq] at hsp
+          subst hsp
+          have hfold' : kids.foldl (spillStep ps sth f) (some ([] ++ kids)) = some kids' := by
+            rw [List.nil_append]; exact hfold
+          obtain ⟨X, hR, _, _, hpg⟩ := fold_cow ps sth f hd.mat hi d kids [] lo kids'
+            (fun p hp lo' hi' pcs' hin hc' hsp' => ih p hp f hd.mat lo' hi' pcs' hin hc' hsp')
+            hk hs
+            (fun p hp h0 => by have := (hall p hp).1.1; rw [h0] at this; simp at this)
+            (by intro a ha; cases ha) (fun h0 => absurd rfl h0) hfold'
+          rw [List.nil_append] at hR
+          subst hR
+          obtain ⟨segs, heq, hflat, _, _⟩ := SpillL.splitNode_branch_spec ps sth hd kids'
+          rw [heq, fz_mat (by exact hm)]
+          refine Kin_split_branch _ segs ?_
+          rw [hflat]
+          exact hpg
+      · have hm' : hd.mat = false := by simpa using hm
+        simp only [hm', Bool.not_false, if_true, Option.some.injEq] at hsp
+        subst hsp
+        rw [subL_single, fz_not_mat (by exact hm')]
+        exact Kin_refl _
+
+theorem growRoot_cow (ps sth : Nat) (F : List N) : ∀ (fuel : Nat) (pcs : List N) (t' : N),
+    (pcs.map N.firstKey).Pairwise Lt → growRoot ps sth fuel pcs = some t' →
+    Kin (subL pcs) F → Kin (sub t') F := by
+  intro fuel
+  induction fuel with
+  | zero =>
+    intro pcs t' _ h
+    rw [growRoot] at h; cases h
+  | succ f ih =>
+    intro pcs t' hp h hK
+    cases pcs with
+    | nil => simp [growRoot] at h
+    | cons p1 rest =>
+      cases rest with
+      | nil =>
+        rw [growRoot.eq_3 _ _ _ _ (by omega)] at h
+        cases h
+        rw [subL_single] at hK; exact hK
+      | cons p2 rest =>
+        rw [growRoot.eq_4 _ _ _ _ (by simp) (by simp)] at h
+        cases hput : putPieces [] [] (p1 :: p2 :: rest) with
+        | none => rw [hput] at h; cases h
+        | some kids =>
+          rw [hput] at h
+          simp only at h
+          have hcnt := PagesL.putPieces_count _ _ _ _ hput
+          have hput' := SpillL.putPieces_rest (p1 :: p2 :: rest) [] [] hcnt hp
+            (by intro a ha; cases ha) (by intro q _ b hb; cases hb)
+          simp only [List.nil_append, List.append_nil] at hput'
+          rw [hput'] at hput
+          cases hput
+          obtain ⟨segs, heq, hflat, hsne, hpos⟩ :=
+            SpillL.splitNode_branch_spec ps sth written ((p1 :: p2 :: rest).map kv)
+          have hpos := hpos (by simp)
+          have hpos' : ∀ s ∈ segs, s ≠ [] := fun s hs h0 => by
+            have := hpos s hs; subst h0; simp at this
+          rw [heq] at h
+          have hp2 : ((segs.map (N.branch written)).map N.firstKey).Pairwise Lt := by
+            rw [List.map_map]
+            have hsub := SpillL.heads_sublist (fun p : Bytes × N => p.1)
+              (N.firstKey ∘ N.branch written) (fun a r => by simp [N.firstKey]) segs hpos'
+            refine List.Pairwise.sublist hsub ?_
+            rw [hflat, List.map_map]
+            exact hp
+          refine ih _ t' hp2 h (Kin_split_branch F segs ?_)
+          rw [hflat, subKids_kv]
+          exact hK
+
+theorem spillRoot_cow (ps sth fuel : Nat) (t t' : N) (hi : inTxN true true none none t = true)
+    (h : spillRoot ps sth fuel t = some t') : Kin (sub t') (fz t) := by
+  unfold spillRoot at h
+  by_cases hm : t.hd.mat = true
+  · simp only [hm, Bool.not_true, Bool.false_eq_true, if_false] at h
+    cases hsp : spillN ps sth fuel t with
+    | none => rw [hsp] at h; cases h
+    | some pcs =>
+      rw [hsp] at h
+      simp only at h
+      by_cases he : ∃ hd, t = .leaf hd []
+      · obtain ⟨hd, rfl⟩ := he
+        cases fuel with
+        | zero => rw [PagesL.spillN_zero] at hsp; cases hsp
+        | succ f =>
+          rw [SpillL.spillN_empty_leaf ps sth f hd hm] at hsp
+          cases hsp
+          rw [growRoot.eq_3 _ _ _ _ (Nat.succ_ne_zero f)] at h
+          cases h
+          rw [sub_leaf]
+          intro x hx h0
+          rw [List.mem_singleton] at hx
+          subst hx
+          exact absurd rfl h0
+      · have hin := SpillL.inTx_nonroot hi (fun hd h0 => he ⟨hd, h0⟩)
+        have hc : t.count ≠ 0 := by
+          cases t with
+          | leaf hd items =>
+            cases items with
+            | nil => exact absurd ⟨hd, rfl⟩ he
+            | cons a r => simp [N.count]
+          | branch hd kids =>
+            rw [inTxN] at hin
+            simp only [Bool.and_eq_true, decide_eq_true_eq] at hin
+            have := hin.1.1.1.2
+            simp only [N.count]; omega
+        obtain ⟨_, hkeys, _⟩ := PagesL.spillN_pg ps sth t fuel true none none pcs hin hc hsp
+        exact growRoot_cow ps sth _ fuel pcs t' hkeys.1 h
+          (spillN_cow ps sth t fuel true none none pcs hin hc hsp)
+  · have hm' : t.hd.mat = false := by simpa using hm
+    simp only [hm', Bool.not_false, if_true, Option.some.injEq] at h
+    subst h
+    rw [fz_not_mat hm']
+    exact Kin_refl _
+
+/-! ### the three phases together -/
+
+/-- operations, rebalance, spill: every old page of the result is a node of the committed tree
+    the transaction started from (`hi2`: the in-transaction invariant holds before the spill) -/
+theorem phases_cow (ps sth rth fuel : Nat) (t t1 t2 t' : N) (ops : List Op) (order : List Nat)
+    (hm : t.hd.mat = false) (h1 : applyOps fuel t ops = some t1)
+    (h2 : rebalanceAll rth fuel t1 order = some t2) (hi2 : InTx t2)
+    (h3 : spillRoot ps sth fuel t2 = some t') : Kin (sub t') (sub t) := by
+  have h3' := spillRoot_cow ps sth fuel t2 t' hi2 h3
+  rw [← fz_not_mat hm]
+  exact h3'.mono (fun x hx => applyOps_fz fuel ops t t1 h1 x (rebalanceAll_fz rth fuel order t1 t2 h2 x hx))
 
 end Bolt.BTree.CowL
